@@ -786,10 +786,8 @@ theorem lgens_ext : ∀ (a b : List LGen), a.map (·.number) = b.map (·.number)
 
 /-! ## G. the lines of `info -sf` over such a history -/
 
-open MhlProps.C19 in
-/-- the lines `info -sf` prints for the path text `sp` over the generations `gens` -/
-def sfLines (gens : List LGen) (sp : String) : List (Nat × String × String × String) :=
-  gens.flatMap fun g => (recordEntries g sp).map fun e => (g.number, e.fmt, e.digest, e.action)
+/- `sfLines` (the lines `info -sf` prints for the path text `sp` over the generations `gens`) is defined in
+MhlProps/C19.lean (moved there unchanged; still `MhlModel.sfLines`). -/
 
 open MhlProps.C19 in
 theorem mem_sfLines (gens : List LGen) (sp : String) (ℓ : Nat × String × String × String) :
